@@ -525,6 +525,7 @@ func chainRule(c *core.Ctx) {
 			}
 		}
 		// lookups in the tables and the character values they are keyed by
+		var byteKeyed []string
 		roots := map[ssa.Value]bool{}
 		consulted := map[string]int{}
 		var lookups []*ssa.Lookup
@@ -545,6 +546,13 @@ func chainRule(c *core.Ctx) {
 				k := lk.Index
 				for {
 					if cv, ok := k.(*ssa.Convert); ok {
+						// the character tables are keyed by characters: a key widened from a single octet of the text (rune(text[i]))
+						// never is a character above U+007F, so every such character is reported absent
+						if f.encode {
+							if bt, isB := cv.X.Type().Underlying().(*types.Basic); isB && bt.Kind() == types.Uint8 {
+								byteKeyed = append(byteKeyed, c.Prog.Pos(lk.Pos()))
+							}
+						}
 						k = cv.X
 						continue
 					}
@@ -618,6 +626,9 @@ func chainRule(c *core.Ctx) {
 		}
 		var problems []string
 		problems = append(problems, delegProblems...)
+		for _, at := range dedup(byteKeyed) {
+			problems = append(problems, "the table lookup at "+at+" is keyed by a single octet of the text widened to a rune, not by a character: every character above U+007F (é, £, Δ ...) is reported absent")
+		}
 		for _, w := range want {
 			if consulted[w] == 0 {
 				problems = append(problems, "table "+w+" is never consulted")
